@@ -18,10 +18,15 @@ META = dict(
     technique="Coq theorems on a model of to_dict / ModelSettings / model_factory / constructors / load_parameters over association "
               "lists and nested number lists, and of the end-of-fit script over an abstract store; the model's executable "
               "definitions are run inside Coq (vm_compute) on the dictionaries the real code wrote / was given and compared "
-              "(key set, order, routing, error class, reshaped values); structural translation of the end-of-fit statements",
+              "(key set, order, routing, error class, reshaped values); structural translation of the end-of-fit statements and of "
+              "StatefulModel.load_parameters; histories (load_parameters / fit / observers on ONE model object) as event lists over the "
+              "same store and over the real State model; State.__setitem__ traces of every load_parameters compared inside Coq; "
+              "multi-step histories on the real code compared with a fresh model",
     level_text="Unbounded theorems: after the end-of-fit script every population variable is the mode of its prior under the final "
                "parameters and every read is the from-scratch value (store interface proved for the State model of C01: "
-               "C12_self_consistent_state / _reachable, docs/Compose-api.md); load(save m) succeeds and "
+               "C12_self_consistent_state / _reachable, docs/Compose-api.md); the same after ANY sequence of load_parameters / fit / "
+               "observer events on one model object, and an old model object reads like a fresh one built from the last parameters "
+               "(C12_history_self_consistent, _independent, _reachable, _vs_fresh_reachable; C12_guarded_reset_refuted); load(save m) succeeds and "
                "preserves kind, features, dimension, sources, observation models, parameters for every well-formed model whose "
                "instance name is its kind; save/load/save is the identity on float32 declared-shape models; refutations for custom "
                "instance names, default-constructed univariate models, scalar-noise shape and float64 parameters.",
@@ -1257,8 +1262,10 @@ def main(run: Run):
     run.assumptions += [
         "float32 -> tolist -> json.dump -> json.load -> torch.tensor is the identity on finite float32 values and infinities "
         "(library fact, tested on sampled bit patterns on every run, see float32_json_roundtrip)",
-        "a read of the store after the end-of-fit script returns the from-scratch value (hypothesis fresh_reads of "
-        "C12_self_consistent, to be discharged by the C01 state model)",
+        "a read of the store after the end-of-fit / load_parameters script returns the from-scratch value (hypothesis fresh_reads of "
+        "C12_self_consistent and C12_history_self_consistent; discharged for the State model of C01 in the _state / _reachable theorems)",
+        "a fit is modelled as an arbitrary transformer of the model's State followed by the end-of-fit script; the iterations "
+        "themselves are not part of this property",
         "every population latent variable has a Normal prior whose mode is its first parameter broadcast (checked on every fitted model)",
     ]
     run.trusted += [
@@ -1269,7 +1276,11 @@ def main(run: Run):
                        "executed inside Coq on every dictionary the real to_dict wrote and on hand-edited dictionaries, and must "
                        "reproduce the real outcome exactly (ordered key list, values as exact rationals, loaded attributes, error "
                        "class).  The real code is additionally driven through save -> load -> save with files (bytes, bits, "
-                       "trajectories) and, after fits, through the prior-mode / from-scratch comparison.")
+                       "trajectories) and, after fits, through the prior-mode / from-scratch comparison.  Histories: for every kind x "
+                       "sources x noise, sequences of load / load_parameters / fit / save on ONE model object, then population "
+                       "variables == prior modes bit-for-bit, every derived value and trajectory == a fresh model loaded from the last "
+                       "parameters, re-save byte-identical; the assignments of every load_parameters call are compared inside Coq with "
+                       "the model's script.")
     try:
         check(run)
     except Exception as e:  # noqa
